@@ -185,6 +185,21 @@ M['S17_fixed_64k_buffer_truncates'] = [(LSF, READ_BLOCK, '''        // The IERS 
         let contents = String::from_utf8_lossy(&buf[..n]).into_owned();
 ''' % IOERR)]
 
+M['S19_utc_labelled_lookup_regresses_kf2'] = [(MOD, '''                        // Assume it's TAI
+                        let epoch = Self {
+                            duration,
+                            time_scale: TimeScale::TAI,
+                        };''', '''                        // The table is indexed by UTC timestamps: count the leap seconds as of a UTC epoch.
+                        let epoch = Self {
+                            duration,
+                            time_scale: TimeScale::UTC,
+                        };''')]
+M['S20_single_lookup_regresses_kf2'] = [(MOD, '''                    if utc == early || utc_with_leap_seconds_at(utc) == utc {
+                        utc
+                    } else {''', '''                    if utc == early || utc_with_leap_seconds_at(utc) == utc {
+                        early
+                    } else {''')]
+
 # ---- refactors: each preserves the clause; the check must stay silent ---------------------
 R = {}
 R['R1_bufreader_linewise'] = [(LSF, READ_BLOCK, '''        use std::io::BufRead;
